@@ -597,6 +597,47 @@ def rule_lua_lines(ctx, res):
               w.module.loc(fix))
 
 
+def rule_reader_lines(ctx, res, rule_id):
+    """every line of a section reaches lua.unicode_to_p8scii decoded as
+    UTF-8 and otherwise exactly as it was read from the file"""
+    from . import p8trace
+    raw, flows = p8trace.reader_line_flow(ctx)
+    if not flows:
+        res.undecided(rule_id, raw.qual, 'section lines decoded UTF-8 -> '
+                      'P8SCII', 'no call of unicode_to_p8scii found on the '
+                      'paths of the reading loop', raw.loc)
+        return
+    bad = None
+    unknown = None
+    for (cond, decoded, L, _same, node) in flows:
+        if not decoded:
+            bad = ('the line is not decoded as UTF-8 before the conversion: '
+                   + ast.unparse(L)[:80], node)
+            continue
+        k = p8trace.classify_line_source(ctx, raw, L)
+        if k == 'changed':
+            bad = ('the text handed to the conversion is not the line as '
+                   'read but `{}` (when {}): bytes of the file are altered '
+                   'before they are converted'.format(
+                       ast.unparse(L)[:80], cond[-120:] or 'always'), node)
+        elif k == 'unknown':
+            unknown = (ast.unparse(L)[:80], node)
+    if bad:
+        res.violation(rule_id, raw.qual, 'section lines reach the '
+                      'conversion unchanged (UTF-8 decode only)', bad[0],
+                      raw.module.loc(bad[1]))
+    elif unknown:
+        res.undecided(rule_id, raw.qual, 'section lines reach the '
+                      'conversion unchanged (UTF-8 decode only)',
+                      'provenance of `{}` not followed'.format(unknown[0]),
+                      raw.module.loc(unknown[1]))
+    else:
+        res.holds(rule_id, raw.qual, 'section lines reach the conversion '
+                  'unchanged (UTF-8 decode only)', '{} conversion site(s) '
+                  'on the paths of the reading loop'.format(len(flows)),
+                  raw.loc)
+
+
 def rule_text(ctx, res):
     model = ctx.model
     w = model.func(P8 + ':P8Formatter.to_file')
@@ -616,12 +657,7 @@ def rule_text(ctx, res):
               "new_game.label=Gfx.from_lines(" in rs, 'R-C03-text', r.qual,
               'reader starts without a label and sets it from __label__',
               '', 'label reading changed', r.loc)
-    raw = model.func(P8 + ':_get_raw_data_from_p8_file')
-    rr = ast.unparse(raw.node).replace(' ', '')
-    res.check("lua.unicode_to_p8scii(str(line,encoding='utf-8'))" in rr,
-              'R-C03-text', raw.qual,
-              'section lines decoded UTF-8 -> P8SCII', '',
-              'reader conversion changed', raw.loc)
+    rule_reader_lines(ctx, res, 'R-C03-text')
     # the gfx of the map is re-linked when gfx is read after map
     res.check('._gfx=new_game.gfx' in rs and (
         'gfx=my_gfx' in rs or 'gfx=new_game.gfx' in rs),
